@@ -8,7 +8,7 @@ from vlib import engine, gen, kal
 ID = "C08"
 RULE = ("One generated string (nucleotide ACGTU / +N / full IUPAC / all-N, protein 20 aa / +BZX / all-X, homopolymers, "
         "either case; length 1..800 quick, 1..5000 thorough; short strings drawn letter by letter) x 2..500 copies x a type "
-        "admissible for the kind kalign itself reports for the string x threads 1..16 x entry point (kalign() / file API). "
+        "admissible for the kind kalign itself reports for the string x threads 1..16 x entry point (kalign() / file API; the file in a drawn layout: wrapped at 1/7/60/80 or not, LF or CRLF, with or without a final line terminator, 0/1/6 leading blank lines). "
         "Oracle: every row equals the string and the length is unchanged. Non-trivial = copies>=3 or length>=2; distinct "
         "by hash of the case.")
 ASSUMPTIONS = ["gap penalties are the type's defaults: the property quantifies over alignment types, not over user penalties (with gap open 0, X:X scoring <= 0 makes the gap-free alignment non-optimal)",
@@ -39,7 +39,8 @@ def cases(draw, tier):
     if len(s) * copies > (250000 if tier == "quick" else 1500000):
         copies = max(2, (250000 if tier == "quick" else 1500000) // len(s))
     return {"s": s, "copies": copies, "type_pick": draw(st.integers(0, 3)), "threads": draw(gen.threads),
-"entry": draw(st.sampled_from(["arr", "file"]))}
+"entry": draw(st.sampled_from(["arr", "file"])),
+            "layout": draw(gen.layouts)}
 
 
 def strategy(tier):
@@ -57,7 +58,7 @@ def check(case):
         if case["entry"] == "arr":
             r = kal.align_arr(seqs, cfg)
         else:
-            r = kal.align_named(["s%d" % i for i in range(k)], seqs, cfg)
+            r = kal.align_named(["s%d" % i for i in range(k)], seqs, cfg, layout=case.get("layout"))
     except kal.Failure as f:
         if f.ended.kind == "hang":
             return engine.discard("cpu-limit (inconclusive; hangs are judged by C05)")
@@ -97,12 +98,14 @@ def extra(tier, seed, stats):
         rnd = random.Random(L * 7919 + seed)
         alpha = ALPHAS[L % len(ALPHAS)]
         s = "".join(rnd.choice(alpha) for _ in range(L))
-        cases_.append({"s": s, "copies": 2 + L % 4, "type_pick": L % 4, "threads": 1 + L % 4, "entry": "arr" if L % 2 else "file"})
+        cases_.append({"s": s, "copies": 2 + L % 4, "type_pick": L % 4, "threads": 1 + L % 4, "entry": "arr" if L % 2 else "file",
+                       "layout": {"width": [0, 60, 0][L % 3], "eol": "\r\n" if L % 5 == 0 else "\n", "final_eol": L % 4 != 0}})
     for n in sweeps.count_sweep(quick):
         rnd = random.Random(n * 104729 + seed)
         alpha = ALPHAS[n % len(ALPHAS)]
         s = "".join(rnd.choice(alpha) for _ in range(5 + n % 40))
-        cases_.append({"s": s, "copies": n, "type_pick": n % 4, "threads": 1 + n % 4, "entry": "arr" if n % 2 else "file"})
+        cases_.append({"s": s, "copies": n, "type_pick": n % 4, "threads": 1 + n % 4, "entry": "arr" if n % 2 else "file",
+                       "layout": {"width": 0, "eol": "\n", "final_eol": n % 4 != 0}})
     with ThreadPoolExecutor(max_workers=12) as ex:
         res = list(ex.map(check, cases_))
     out = []
